@@ -34,6 +34,7 @@ func init() {
 }
 
 func runC10(c *an.Ctx) {
+	c10AccessCodec(c)
 	// ---- R7: the location handed to the access check is not an object shared with the GeoIP cache that later code modifies
 	c.Floor("C10-R7", 1)
 	c.Borrow("C10-R7", runC05, func(o an.Obligation) bool { return o.Rule == "C05-R1" && strings.Contains(o.Key, "locFromReq") })
@@ -421,4 +422,43 @@ func c10Access(c *an.Ctx) {
 		c.Check(ok, "C10-R6", "access.NewDefaultProfile engine rules", fn.Pos(), "the host engine is built from the profile's blocklist rules",
 			"the profile's host engine is not built from its own blocklist rules")
 	}
+}
+
+// c10AccessCodec holds the tables of the two decoders of a profile's access
+// settings: an absent message means "no restrictions"; a present one is turned
+// into a default profile with all five lists, whatever is in them.
+func c10AccessCodec(c *an.Ctx) {
+	c.Floor("C10-R8", 2)
+	for _, fnKey := range []string{"profiledb/internal/filecachepb.(*Access).toInternal"} {
+		decide(c, "C10-R8", fnKey, an.DecideCfg{
+			Dom: an.Domain{"p0": an.NilOrNot},
+			OnCall: func(it *an.Interp, name string, args []an.AV) (an.AV, bool) {
+				switch {
+				case strings.HasSuffix(name, "access.NewDefaultProfile"):
+					return an.NonNil("default(" + args[0].String() + ")"), true
+				case strings.HasSuffix(name, "ToInternal"), strings.HasSuffix(name, "UnsafelyConvertStrSlice"), strings.Contains(name, "unsafelyConvertStrSlice"):
+					return an.Sym("conv(" + args[0].String() + ")"), true
+				}
+				return an.AV{}, false
+			},
+			Expect: func(f an.Features, o an.AOutcome) string {
+				if len(o.Ret) != 1 {
+					return "a profile"
+				}
+				if f.IsNil("p0") {
+					if o.Ret[0].Dyn == "access.EmptyProfile" {
+						return ""
+					}
+					return "the empty profile for absent settings; got " + o.RetString()
+				}
+				if !strings.HasPrefix(o.Ret[0].String(), "nonnil:default(") {
+					return "a default profile built from the stored settings whenever they are present (name rules alone are a restriction too); got " + o.RetString() + " " + o.Ret[0].Dyn
+				}
+				return ""
+			},
+		})
+	}
+	checkFieldMap(c, "C10-R8", "profiledb/internal/filecachepb.(*Access).toInternal", "access.ProfileConfig", map[string]string{
+		"AllowedNets": ".AllowlistCidr", "BlockedNets": ".BlocklistCidr", "AllowedASN": ".AllowlistAsn", "BlockedASN": ".BlocklistAsn",
+		"BlocklistDomainRules": ".BlocklistDomainRules"})
 }
